@@ -1,4 +1,5 @@
 import L21.Props.C06
+import L21.Props.C06F
 import L21.Props.C06S
 import L21.Props.C12
 import L21.Props.C17
@@ -18,3 +19,7 @@ import L21.Props.C17
 #print axioms L21.RawGds.c06_struct_error
 #print axioms L21.RawGds.c06_label_rule
 #print axioms L21.RawGds.c06_label_keeps_shapes
+#print axioms L21.RawGds.c06_flatten
+#print axioms L21.RawGds.c06_flatten_placed
+#print axioms L21.RawGds.c06_classify_keeps
+#print axioms L21.RawGds.demo_import
